@@ -196,6 +196,19 @@ CHECKS['C20'] = dict(
     technique='Lean 4 proof (normaliser = reader ∘ envelope ∘ format; idempotence, count repair) + in-process runs of the real script',
     design='DESIGN.md §3 C20')
 
+CHECKS['C11'] = dict(
+    text='Lean model of X12Writer (Write / _popToLoop / Close over the shared X12Base bookkeeping) with theorems writer_body_preserved (any '
+         'history: non-trailer output = non-trailer input in order), writer_discards_supplied_trailers, writer_trailers_true (the output is '
+         'the flattening of a structured document whose trailers carry the header\'s control number and the true counts, via C04\'s recount), '
+         'reader_clean_after_close / _text / reader_end_to_end (for every well-nested history with fresh control numbers, every prefix + Close '
+         'gives an interchange the C04 reader model accepts with no envelope error, also through the rendered text and the C01 tokenizer under '
+         'any read sizes), isa_carries_delims, writer_total. Tied to /repo by 5 000 random histories per run on the real X12Writer (Close after '
+         'every prefix, 5 delimiter families, eol settings, 4010/5010): per-Write text compared with the model, output re-read with the real '
+         'X12Reader and recounted by an independent tokenizer.',
+    note=COMMON_NOTE + ' Headers carry non-empty control numbers; values are free of the writer\'s delimiters; counts below the 4300-digit int() limit.',
+    technique='Lean 4 proof (writer/reader lockstep simulation; trailers = structural recount) + write-history differential and re-read oracle',
+    design='DESIGN.md §3 C11')
+
 PENDING_REASON = 'check under construction in this session (see DESIGN.md §3); not yet claimed'
 
 
